@@ -41,9 +41,11 @@ VARIABLES
     utxo,       \* set of [tx, vout, h] : unspent outputs, h = height of the block that included tx
     undo,       \* [height -> set of utxo entries spent by the block connected at that height] (undo/<height> files)
     nDeliv,     \* number of Deliver steps so far
-    balOn,      \* the balance index is enabled
+    balOn,      \* 0: the balance index is off; k > 0: it is on with dust limit BalLimit[k] (AllBalances.MinValue)
     flushed,    \* blocks already written to the block files by Chain.Idle (matters for how a branch is deleted)
     last        \* outcome of the last step (observation): [accepted, refusedLater, viol]
+
+BalLimit == <<100000, 0>>     \* satoshi; 0: every output is indexed, zero-value ones included
 
 vars == <<known, kids, tip, utxo, undo, nDeliv, balOn, flushed, last>>
 
@@ -167,7 +169,7 @@ Init ==
     /\ utxo = UNION {Entries(t, t) : t \in 1..BaseH}
     /\ undo = [h \in {} |-> {}]
     /\ nDeliv = 0
-    /\ balOn = TRUE
+    /\ balOn = 1
     /\ flushed = {}
     /\ last = [accepted |-> FALSE, later |-> FALSE, viol |-> {}]
 
@@ -244,8 +246,9 @@ Deliver(b) ==
     /\ flushed' = flushed \cap known'
 
 \* client/wallet: LoadBalancesFromUtxo / Disable
-BalEnable == /\ AllowBal /\ ~balOn /\ balOn' = TRUE /\ UNCHANGED <<known, kids, tip, utxo, undo, nDeliv, flushed, last>>
-BalDisable == /\ AllowBal /\ balOn /\ balOn' = FALSE /\ UNCHANGED <<known, kids, tip, utxo, undo, nDeliv, flushed, last>>
+\* the index is rebuilt from the populated set under whichever limit the configuration holds at that moment
+BalEnable == /\ AllowBal /\ balOn = 0 /\ balOn' \in 1..Len(BalLimit) /\ UNCHANGED <<known, kids, tip, utxo, undo, nDeliv, flushed, last>>
+BalDisable == /\ AllowBal /\ balOn # 0 /\ balOn' = 0 /\ UNCHANGED <<known, kids, tip, utxo, undo, nDeliv, flushed, last>>
 
 \* Chain.Idle(): the queued blocks reach the block files (and a snapshot save may start: see ChainStore / UtxoSave).
 \* For the ledger this is a no-op - which is the point: deliveries interleaved with Idle must behave the same.
@@ -300,6 +303,7 @@ FirstSeenWinsStep ==
     \A b \in Blocks : (b \notin known /\ b \in known' /\ Work(b) <= Work(tip) /\ Parent(b) # tip) => tip' = tip
 FirstSeenWins == [][FirstSeenWinsStep]_vars
 
-\* C17: the balance index is the projection of the UTXO set (MinVal = dust limit of the index)
+\* C17: while the index is on it is the projection of the UTXO set under the limit in force:
+\*      for every address (addr, st):  index(addr, st) = Projection(utxo, addr, st, [h |-> 0, u |-> 0, e |-> BalLimit[balOn]])
 Projection(u, addr, st, minval) == {e \in u : OutOf(e).addr = addr /\ OutOf(e).st = st /\ AmtLE(minval, OutOf(e).amt)}
 =============================================================================
